@@ -38,6 +38,7 @@ type Opts struct {
 	NoEmptyMapcar  bool // never mapcar over an empty list
 	NoCondNoBody   bool // no cond clause without body
 	MarkOdds       int  // out of 10: wrap evaluated positions in vt:mark
+	NoLambdaCall   bool // no lambda expression in the function position: ((lambda (p) ...) arg)
 }
 
 // Gen is the generator state for one program.
@@ -200,7 +201,7 @@ func (g *Gen) intExpr(env []binding, d int) r.Val {
 	if d >= g.O.MaxDepth {
 		return g.leafInt(env)
 	}
-	switch g.pick("intk", 23) {
+	switch g.pick("intk", 24) {
 	case 0, 1:
 		return g.leafInt(env)
 	case 2:
@@ -308,6 +309,22 @@ func (g *Gen) intExpr(env []binding, d int) r.Val {
 			return r.L(sym(g.MacroName), g.Expr(TInt, env, d+1))
 		}
 		fallthrough
+	case 22:
+		// a lambda expression in the function position: called where it is written, its body sees the bindings
+		// around it as they are at each evaluation (not as they were the first time the form was evaluated)
+		if g.O.NoLambdaCall {
+			return g.leafInt(env)
+		}
+		g.kind("lambda-call")
+		g.Feat["lambda-call"] = true
+		p := g.varName()
+		in := with(env, binding{p, TInt})
+		lam := []r.Val{sym("lambda"), r.L(sym(p))}
+		if g.pick("lcbody", 3) == 0 {
+			lam = append(lam, g.Expr(TAny, in, d+1))
+		}
+		lam = append(lam, g.Expr(TInt, in, d+1))
+		return r.L(r.L(lam...), g.Expr(TInt, env, d+1))
 	default:
 		g.kind("call")
 		return r.L(sym("1+"), g.Expr(TInt, env, d+1))
@@ -727,6 +744,16 @@ func (g *Gen) Program() []r.Val {
 // index only (so the call graph is acyclic whatever the definition order) and, when recursive, itself through
 // the bounded counter.
 func (g *Gen) DefunIndexed(i int, sigs []FunSig) r.Val {
+	return g.defunIndexed(i, sigs, false)
+}
+
+// DefunIndexedOpt is DefunIndexed with the last parameter made &optional with a constant default: a definition
+// that accepts the calls of the plain one and calls with one argument less.
+func (g *Gen) DefunIndexedOpt(i int, sigs []FunSig) r.Val {
+	return g.defunIndexed(i, sigs, true)
+}
+
+func (g *Gen) defunIndexed(i int, sigs []FunSig, lastOptional bool) r.Val {
 	g.funs = nil
 	for _, s := range sigs[i+1:] {
 		g.funs = append(g.funs, fdef{s.Name, s.Arity})
@@ -735,7 +762,11 @@ func (g *Gen) DefunIndexed(i int, sigs []FunSig) r.Val {
 	params := []r.Val{}
 	env := []binding{}
 	for k := 0; k < me.Arity; k++ {
-		params = append(params, sym(pool[k]))
+		if lastOptional && k == me.Arity-1 {
+			params = append(params, sym("&optional"), r.L(sym(pool[k]), g.lit()))
+		} else {
+			params = append(params, sym(pool[k]))
+		}
 		env = append(env, binding{pool[k], TInt})
 	}
 	g.kind("defun")
